@@ -25,6 +25,8 @@ val dmul_trunc : coq_Z -> coq_Z -> coq_Z
 
 val dmul_up : coq_Z -> coq_Z -> coq_Z
 
+val dmul_int : coq_Z -> coq_Z -> coq_Z
+
 val dquo : coq_Z -> coq_Z -> coq_Z
 
 val dquo_trunc : coq_Z -> coq_Z -> coq_Z
